@@ -5,12 +5,37 @@ equal, mode for mode and in the order requested, what the scalar-order function 
 returns, with shape (len(orders), *coordinate.shape).
 
 Oracle: the scalar-order function of the same family (the relation the property itself states).
-Sequence and scalar routines run the same recurrences on the same coordinates, so they may differ
-only by the rounding of a final scaling; the comparison is at K*eps(dtype)*cond*max(|mode|, FLOOR) per
-mode, cond = 1 + |m|*max|theta| for the modes with an azimuthal factor (the sequence routines form
-m*theta in double precision, the scalar ones in the coordinate precision), 1 + n for the Chebyshev
-sequences (their constants 1/P_n(1) come from a recurrence sweep in the coordinate precision) and 1 otherwise.  Honest
-difference measured on the pinned tree over the whole scope: <= 1.7 eps*cond (see TOL_K).
+
+Tolerance.  Sequence and scalar routine are two evaluations of the same polynomial by a three-term
+recurrence of n steps (possibly ordered or seeded differently -- any backward-stable order is a valid
+implementation), so their honest difference is bounded by a small multiple of the recurrence bound
+    (n + 1) * eps * max_{k <= n} |P_k|
+(for the derivative sequences: of the derivative).  Per mode j the comparison is therefore at
+    tol_j = TOL_K * eps * (N_j + 1) * cond_j * max(S_j, FLOOR)
+eps   = the coarser of eps(coordinate dtypes) and eps(config.precision);
+N_j   = the order n (one-index, Zernike, Q2d), m + n for the XY monomials;
+S_j   = max over the requested modes i with N_i <= N_j of max_x |mode_i(x)|, x over the coordinate array at hand and over the
+        case's reference point set (which holds both end points of the domain), taken from the scalar results -- a lower
+        estimate of max_{k<=n} sup|P_k| that needs no extra evaluations (it makes the tolerance tighter, never looser);
+cond_j = 1 + |m| * max|theta| for modes with an azimuthal factor cos/sin(m theta) (the argument m*theta is formed in the
+        coordinate precision by the scalar functions and in double by the sequences), 1 otherwise.
+TOL_K = 96 is >= 12x the largest honest difference observed, in these units, on HEAD and on the four property-preserving
+rewrites /verif/benign/C08-1..4.  Worst honest err/tol per unit, quick tier (identical for seeds 0..3):
+    unit                     HEAD    benign-1  benign-2  benign-3  benign-4
+    seq1_jacobi              0       0.0074    0         0         0
+    seq1_cheby               0.0019  0.0093    0.0019    0.0019    0.0019
+    seq1_hermite             0       0         0         0         0
+    seq1_laguerre_dickson    0       0         0         0         0
+    seq1_qbfs_qcon           0.0016  0.0094    0.0016    0.0016    0.0016
+    seq2_zernike_nm_seq      0.0009  0.0037    0.0009    0.0009    0.0009
+    seq2_zernike_nm_der_seq  0.0005  0.0005    0.0005    0.0005    0.0005
+    seq2_Q2d_seq             0.0015  0.0015    0.0015    0.0015    0.0015
+    seq2_xy_seq              0.0020  0.0020    0.0020    0.0020    0.0020
+    hi_orders                0.0204  0.0204    0.0792    0.0204    0.0204   (benign-2: cheby3_der_seq, n=300, float32)
+    dtype_precision          0.0019  0.0074    0.0019    0.0019    0.0019
+    mixed_coords             0.0020  0.0021    0.0020    0.0020    0.0020
+(0 = bit-identical.)  Defects of interest are O(1e-3 .. 1) relative; the loosest tolerance of the subset scope (n = 9,
+float32) is 96 * 1.2e-7 * 10 = 1.1e-4 of the mode scale.
 
 Signatures.  Every case evaluates the 1-D reference coordinate (5 points, float64) first.  When
 that already disagrees the defect is about *which orders* were asked for and the signature carries
@@ -38,7 +63,7 @@ from prysm.conf import config
 
 ID = 'C08'
 
-TOL_K = 64         # honest seq-vs-scalar difference on the pinned tree is <= 1.7 eps * cond * mode scale (margin > 35x)
+TOL_K = 96         # see the worst-honest-ratio table in the module docstring
 CHUNK = 32          # cases per work item: small, so that the 40-violations-per-item cap of the explorer does not hide signatures
 FLOOR = 1e-2       # modes whose magnitude is below this are compared at K*eps*FLOOR absolute
 
@@ -158,9 +183,9 @@ def coords(shape, seed, salt, lo, hi, dtype):
     return np.asarray(x, dtype=dtype)
 
 
-def eps_of(*dtypes):
-    """Comparison precision: the coarsest floating precision among the coordinate dtypes."""
-    e = float(np.finfo(float).eps)
+def eps_of(*dtypes, prec=64):
+    """Comparison precision: the coarsest of the coordinate dtypes' and of the configured precision."""
+    e = float(np.finfo(np.float32 if prec == 32 else np.float64).eps)
     for d in dtypes:
         d = np.dtype(d)
         if d.kind in 'fc':
@@ -175,8 +200,30 @@ def dimclass(shape, k):
     return c
 
 
-def compare(got, want, eps, cond=None):
-    """-> (ok, bad mode indices, message); never raises.  want has been built by the harness."""
+def own_scales(want):
+    k = want.shape[0]
+    own = np.abs(want.reshape(k, -1)).max(axis=1) if want[0].size else np.zeros(k)
+    return np.where(np.isfinite(own), own, 1.0)
+
+
+def mode_scales(want, orders, ref=None):
+    """S_j = max over requested modes i with N_i <= N_j of max|mode_i| (scalar results), FLOOR at least.
+
+    ref: the same per-mode maxima on the case's reference coordinates (1-D point set with both end points of the domain);
+    a 0-D or one-point coordinate array says nothing about max_x |P_k(x)|, which is what the recurrence bound refers to."""
+    k = want.shape[0]
+    own = own_scales(want)
+    if ref is not None and len(ref) == k:
+        own = np.maximum(own, ref)
+    orders = np.asarray(orders, dtype=float)
+    return np.array([max(FLOOR, own[orders <= orders[j]].max()) for j in range(k)])
+
+
+def compare(got, want, eps, orders, cond=None, ref=None):
+    """-> (ok, bad mode indices, message); never raises.  want has been built by the harness.
+
+    tol_j = TOL_K * eps * (N_j + 1) * cond_j * S_j, see the module docstring.  compare.worst records the largest
+    finite err/tol seen (development aid: tools for re-deriving TOL_K read it)."""
     try:
         g = np.asarray(got)
         if g.dtype.kind not in 'fiuc':
@@ -188,15 +235,16 @@ def compare(got, want, eps, cond=None):
         g = g.astype(want.dtype)
         w = want
         k = w.shape[0]
-        scale = np.abs(w.reshape(k, -1)).max(axis=1) if w[0].size else np.zeros(k)
-        scale = np.where(np.isfinite(scale), scale, 1.0)
-        tol = TOL_K * eps * np.maximum(scale, FLOOR) * (1.0 if cond is None else np.asarray(cond, dtype=float))
+        tol = TOL_K * eps * (np.asarray(orders, dtype=float) + 1.0) * mode_scales(w, orders, ref) * (1.0 if cond is None else np.asarray(cond, dtype=float))
         tol = tol.reshape((k,) + (1,) * (w.ndim - 1))
         with np.errstate(invalid='ignore'):
             err = np.abs(g - w)
         same = (g == w) | (np.isnan(g) & np.isnan(w))
         err = np.where(same, 0.0, np.where(np.isnan(err), np.inf, err))
         badel = err > tol
+        finite = np.isfinite(err)
+        if finite.any():
+            compare.worst = max(compare.worst, float(np.max(np.where(finite, err, 0) / tol)))
         if not badel.any():
             return True, [], ''
         bad = [j for j in range(k) if badel[j].any()]
@@ -208,14 +256,7 @@ def compare(got, want, eps, cond=None):
         return False, None, f'uncomparable output ({type(e).__name__}: {e})'
 
 
-def honest_ratio(got, want, eps, cond=None):
-    """max |got-want| / (eps * cond * mode scale) -- development aid for choosing TOL_K."""
-    g = np.asarray(got, dtype=float)
-    w = want.astype(float)
-    k = w.shape[0]
-    scale = np.maximum(np.abs(w.reshape(k, -1)).max(axis=1), FLOOR) * (1.0 if cond is None else np.asarray(cond, dtype=float))
-    scale = scale.reshape((k,) + (1,) * (w.ndim - 1))
-    return float(np.nanmax(np.abs(g - w) / (eps * scale))) if g.size else 0.0
+compare.worst = 0.0
 
 
 def stack_scalar(R, outs, shape, sname, broadcast=False):
@@ -296,11 +337,12 @@ def run_one(case, seed, R):
     prec = case.get('prec', 64)
     tail = ':prec32' if prec == 32 else ''
     ref_ok = {}
+    ref_scale = None
     config.precision = prec
     try:
         for shape in shapes:
             for dtype in dtypes:
-                eps = eps_of(dtype)
+                eps = eps_of(dtype, prec=prec)
                 x = coords(shape, seed, 11, lo, hi, dtype)
                 xin = x.copy()
                 got = R.call(fseq, list(ns), *par, xin, sig=f'{name}:raises')
@@ -312,13 +354,12 @@ def run_one(case, seed, R):
                         R.violation(f'{name}:raises', exc)
                     continue
                 R.checks += 1
+                if ref_scale is None:
+                    ref_scale = own_scales(want)        # first configuration = the float64 reference point set
                 if got is FAILED:
                     ok, msg = False, exc
                 else:
-                    # Chebyshev: the per-order constant 1/P_n(1) comes from a second recurrence sweep at x=1 in the coordinate
-                    # precision (the scalar function does it in double): honest difference ~ 1.3 n eps (measured up to n=300)
-                    cond = [1.0 + n for n in ns] if name.startswith('cheby') else None
-                    ok, bad, msg = compare(got, want, eps, cond)
+                    ok, bad, msg = compare(got, want, eps, ns, ref=ref_scale)
                     observe(R, got)
                 is_ref = shape == (5,)
                 if is_ref:
@@ -395,11 +436,12 @@ def run_two(case, seed, R):
     prec = case.get('prec', 64)
     tail = ':prec32' if prec == 32 else ''
     ref_ok = {}
+    ref_scale = None
     config.precision = prec
     try:
         for sa, sb, da, db in two_configs(case, name, k, grid_only):
             shape = tuple(np.broadcast_shapes(sa, sb))
-            eps = eps_of(da, db)
+            eps = eps_of(da, db, prec=prec)
             a, b = two_coords(name, grid_only, sa, sb, da, db, seed)
             ain, bin_ = a.copy(), b.copy()
             got = R.call(fseq, list(nms), ain, bin_, sig=f'{name}:raises', **kw)
@@ -423,12 +465,15 @@ def run_two(case, seed, R):
                 continue
             R.checks += 1
             bad = None
+            if ref_scale is None:
+                ref_scale = own_scales(want)            # first configuration = the float64 reference coordinates
             if got is FAILED:
                 ok, msg = False, exc
             else:
                 tmax = float(np.max(np.abs(b))) if b.size else 0.0
                 cond = None if name == 'xy_seq' else [1.0 + abs(p[1]) * tmax for p in nms]
-                ok, bad, msg = compare(got, want, eps, cond)
+                orders = [p[0] + p[1] for p in nms] if name == 'xy_seq' else [p[0] for p in nms]
+                ok, bad, msg = compare(got, want, eps, orders, cond, ref=ref_scale)
                 observe(R, got)
             plain = sa == sb and da == db
             is_ref = plain and sa == ((5,) if not grid_only else (3, 4))
